@@ -16,6 +16,7 @@
 # limitations under the License.
 # -----------------------------------------------------------------------------
 import logging
+import struct
 import typing
 import secrets
 import time
@@ -109,7 +110,7 @@ class SvsInst:
             return
         try:
             remote_sv_pkt = StateVecWrapper.parse(name[-2]).val
-        except (enc.DecodeError, IndexError, ValueError) as e:
+        except (enc.DecodeError, IndexError, ValueError, struct.error) as e:
             self.logger.error('Unable to decode state vector [%s]: %s', enc.Name.to_str(name), e)
             return
 
